@@ -121,6 +121,15 @@ def make_subscribers(kind, label, signals, rig_log, names):
             elif kind == "partial":
                 async def g(result=None):
                     return None
+            elif kind == "needy":
+                # requires arguments no signal (or not this one) supplies: the call cannot even be made; that is the
+                # subscriber's problem, logged and nothing else
+                if len(name) % 2:
+                    async def g(key, payload, params, result, nonexistent):
+                        rig_log.add(k="needy_called", name=name, conn=label)
+                else:
+                    def g(result, id_, queue_name, actor):
+                        rig_log.add(k="needy_called", name=name, conn=label)
             elif kind == "noargs":
                 # declares nothing at all: still one call per signal
                 if len(name) % 2:
@@ -198,13 +207,15 @@ async def lifecycle(loop, case, subset, record):
         signals = []
         names = sorted(SUBSCRIBERS_NAMES)
         flavours = {"none": [], "recording": ["recording"], "raising": ["raising", "recording"], "slow": ["slow", "recording"], "sync": ["sync", "recording"],
-                    "partial": ["partial", "noargs", "recording"], "mixed": ["raising", "slow", "sync", "partial", "noargs", "recording"]}[subset]
+                    "partial": ["partial", "noargs", "needy", "recording"], "mixed": ["raising", "slow", "sync", "partial", "noargs", "needy", "recording"]}[subset]
         for lab, c in conns.items():
             for fl in flavours:
                 for f in make_subscribers(fl, lab, signals, w.log, names):
                     c.middleware.add_subscriber(f)
             if subset in ("partial", "mixed"):
                 c.middleware.add_middleware(make_middleware_object(lab, w.log, names))
+                # ... and the same thing handed over as a class: its functions require a `self` no signal supplies
+                c.middleware.add_middleware(type(make_middleware_object(lab + "-class", w.log, names)))
         for c in conns.values():
             await c.connect()
         routers = {}
